@@ -52,6 +52,10 @@ def cases(tier, seed):
     neg = [-3, -2, -1, 0, 1, 2]
     for chunk in space.chunks(space.multisets(neg, 1, 5 if tier == 'quick' else 7), 60):
         yield dict(kind='multisets', family='int-negative', alpha=neg, msets=[list(m) for m in chunk])
+    # INPUT FORMS: every multiset of size 1..4 over {0..5} as unsigned/signed/narrow-float arrays, tuple, pandas Series, strided and
+    # reversed views, read-only arrays; queries as numpy scalars
+    for chunk in space.chunks(space.multisets(INT_ALPHA, 1, 4), 30):
+        yield dict(kind='multisets', family='forms', alpha=INT_ALPHA, msets=[list(m) for m in chunk], forms=ALL_FORMS)
     # histories on ONE array object: query, overwrite the array in place with another sample, query again
     small = [list(m) for m in space.multisets([0, 1, 2, 3], 3, 3)]
     for chunk in space.chunks([(a, b) for a in small for b in small if a != b], 60):
@@ -91,13 +95,17 @@ def judge_sample(x_list, qs, failures, h, tag, forms=('list', 'array', 'farray')
         ege, ele = ref_ge(x_list, v), ref_le(x_list, v)
         if has_tie or v in x_list or v < min(x_list) or v > max(x_list):
             nontriv += 1
+        v_ref = v
         for form in forms:
+            v = v_ref
             if form == 'list':
                 x = list(x_list)
             elif form == 'array':
                 x = numpy.array(x_list)
-            else:
+            elif form == 'farray':
                 x = numpy.array(x_list, dtype=float)
+            else:
+                x, v = make_form(x_list, v_ref, form)
             obs = {}
             try:
                 obs['get_quantiles'] = tuple(float(t) for t in stats.get_quantiles(x, v))
@@ -136,6 +144,42 @@ def judge_sample(x_list, qs, failures, h, tag, forms=('list', 'array', 'farray')
     return evals, nontriv
 
 
+DTYPE_FORMS = ['uint8', 'uint16', 'uint32', 'uint64', 'int8', 'int16', 'int32', 'float32', 'float16']
+OTHER_FORMS = ['tuple', 'series', 'strided', 'reversed-view', 'read-only', 'q-float64', 'q-int64', 'q-float32', 'q-uint8']
+ALL_FORMS = DTYPE_FORMS + OTHER_FORMS
+
+
+def make_form(x_list, v, form):
+    """The same sample / query in another legitimate form (small non-negative integers and halves: exact in every dtype used)."""
+    if form in DTYPE_FORMS:
+        return numpy.array(x_list, dtype=form), v
+    if form == 'tuple':
+        return tuple(x_list), v
+    if form == 'series':
+        import pandas
+        return pandas.Series(x_list), v
+    if form == 'strided':
+        buf = numpy.full(2 * len(x_list), 99, dtype=float)
+        buf[::2] = x_list
+        return buf[::2], v
+    if form == 'reversed-view':
+        return numpy.array(x_list[::-1], dtype=float)[::-1], v
+    if form == 'read-only':
+        a = numpy.array(x_list, dtype=float)
+        a.setflags(write=False)
+        return a, v
+    x = numpy.array(x_list)
+    if form == 'q-float64':
+        return x, numpy.float64(v)
+    if form == 'q-float32':
+        return x, numpy.float32(v)
+    if form == 'q-int64':
+        return x, (numpy.int64(v) if float(v).is_integer() else numpy.float64(v))
+    if form == 'q-uint8':
+        return x, (numpy.uint8(v) if float(v).is_integer() and 0 <= v < 256 else numpy.float64(v))
+    raise ValueError(form)
+
+
 def _cls(x, v):
     if v < min(x):
         return 'below'
@@ -155,7 +199,7 @@ def run_case(case):
         for ms in case['msets']:
             states += 1
             for pname, x in presentations(ms):
-                e, nt = judge_sample(x, qs, failures, h, pname)
+                e, nt = judge_sample(x, qs, failures, h, pname, **({'forms': tuple(case['forms'])} if case.get('forms') else {}))
                 evals += e
                 if pname == 'sorted':
                     nontriv += nt
@@ -179,6 +223,13 @@ def run_case(case):
                 for v in qs:
                     stats.get_quantiles(arr, v)
                     stats.binned_ecdf(arr, [v])
+                # the caller owns what ecdf() returned: scaling it in place (a percent axis) must not change later answers
+                ex_, ey_ = stats.ecdf(arr)
+                try:
+                    ey_ *= 100.0
+                    ex_ += 7
+                except (ValueError, TypeError):
+                    pass
                 arr[:] = b                      # same object, new content
                 for v in qs:
                     want = (ref_ge(b, v), ref_le(b, v))
